@@ -171,7 +171,9 @@ class C14(Campaign):
     pid = "C14"
     title = "Event results come only from before/on return values, by the documented rule"
     armed = {"op_result": "C14.result"}
-    fault_kinds = ["async-completion-order != declaration order (seeded delays)"]
+    fault_kinds = ["async-completion-order != declaration order (seeded delays)", "nested sends (queued events return "
+                   "values too)", "concurrent senders (threads pre-empted at seeded lines / asyncio tasks): provenance of "
+                   "each send()'s return value"]
     rule = ("one run = one generated machine whose before/on callbacks (0, 1 or many per transition, "
             "inline / convention, machine / model / listener) return values of every kind, and whose "
             "guards, validators, exit, enter and after callbacks also return values that must be "
@@ -191,6 +193,17 @@ class C14(Campaign):
                          sends_jlt=(1, 2), p_attach_style=0.35)
 
     def scenario(self, rnd, tier):
+        if rnd.random() < 0.2:
+            # results under concurrent senders: what a send() returns comes only from its own event
+            from .concurrent import gen_c06
+
+            sc = gen_c06(rnd, "threads" if rnd.random() < 0.6 else "asyncio", tier)
+            sc["profile"] = "C14-concurrent"
+            sc["cancel"] = False
+            for sd in sc["senders"]:
+                for s_ in sd["sends"]:
+                    s_.pop("timeout", None)
+            return sc
         sc = super().scenario(rnd, tier)
         prog = sc["programs"][0]
         # every callback of the other groups returns something too (must be ignored)
@@ -201,12 +214,37 @@ class C14(Campaign):
                 rules[-1]["ret"] = rnd.choice(["leak", 1, [9], {"k": 1}])
         return sc
 
+    def evaluate(self, sc):
+        if sc.get("senders"):
+            from . import concurrent
+
+            res = concurrent.execute(sc)
+            prog = sc["programs"][0]
+            ok = "machine.on_transition" in prog["cbs"] and all(
+                any(t["src"] == s_["id"] and e in t["events"] for t in prog["trans"])
+                for s_ in prog["states"] for e in prog["events"])
+            viol = concurrent.result_provenance(sc, res) if ok else []
+            return {"violations": viol, "unarmed": [], "mstats": {}, "res": res, "concurrent": True}
+        return super().evaluate(sc)
+
     def nontrivial(self, sc, ev):
+        if ev.get("concurrent"):
+            return ev["res"]["digest"] if any(r["k"] == "send-" and r["out"] != ["ret", None]
+                                              for r in ev["res"]["trace"]) else None
         if any(o.get("res") is not None for o in ev["res"]["outs"]):
             return ev["res"]["digest"]
         return None
 
+    def sample(self, sc, ev):
+        if ev.get("concurrent"):
+            return {"mode": sc["mode"], "senders": sc["senders"], "plan": sc.get("tplan"),
+                    "digest": ev["res"]["digest"]}
+        return super().sample(sc, ev)
+
     def counters(self, sc, ev):
+        if ev.get("concurrent"):
+            return {"probe.concurrent_senders_runs": 1,
+                    "fault.preemptions": ev["res"]["stats"].get("switches", 0)}
         outs = ev["res"]["outs"]
         return {"probe.list_results": sum(1 for o in outs if isinstance(o.get("res"), list)),
                 "probe.none_results": sum(1 for o in outs if o.get("res") is None),
